@@ -9,7 +9,7 @@ from vlib import log
 
 SPEC = "CachePlugin_MC"
 ONEQ = dict(Names='{"n1"}', Types='{"t1"}', Classes='{"c1"}', Flags="{0}")
-TICKS = "{3, 4, 7, 10, 18, 28, 32, 48, 52, 298}"
+TICKS = "{1, 3, 4, 7, 8, 10, 18, 28, 32, 48, 52, 298}"
 INV = "TypeOK TTLRule StaleRule AdmissionRule NeverServedAfterExpiry AtMostOneRefresh NoSharing"
 
 
@@ -139,11 +139,29 @@ def run(ctx):
             c["beh"], c["step"] = bi, si
             c["exp"] = s["o"]["res"]
             cases.append(c)
+    # the clamp boundary (elapsed = ttl - 1, ttl, ttl + 1 for answers kept longer than their records' TTL): exhaustive, never sampled out
+    gc = vlib.tlc_behaviours(ctx, SPEC, "c05_gen_clamp.cfg", label="C05 gen: clamp boundary (exhaustive)",
+                             cfg_text=cl.cfg(gen=True, MaxOps="3", Resps="<- RespsClamp", LazyTTLs="{0}", Ticks="{1, 2, 3, 7, 8, 9, 12}",
+                                             MaxNow="30", OpKinds='{"exec", "tick"}', **ONEQ))
+    clamp = []
+    for bi, b in enumerate(gc):
+        for si, s in enumerate(b["steps"]):
+            if s["a"] != "Exec" or s["o"]["res"] != "hit" or near_boundary(s):
+                continue
+            c = {"lazy": b["lazy"], "now": s["now"], "e": s["e"], "q": s["q"], "r": s["r"]}
+            k = json.dumps(c, sort_keys=True)
+            if k in seen:
+                continue
+            seen.add(k)
+            c["beh"], c["step"], c["exp"] = 100000 + bi, si, "hit"
+            clamp.append(c)
+    if len(clamp) < 10:
+        raise vlib.Infra("clamp generator produced only %d cases" % len(clamp))
     served = [c for c in cases if c["exp"] != "miss"]
     missed = [c for c in cases if c["exp"] == "miss" and c["e"]]
     rng.shuffle(served)
     rng.shuffle(missed)
-    cases = served[:6000 if T else 1200] + missed[:2000 if T else 400]
+    cases = clamp + served[:6000 if T else 1200] + missed[:2000 if T else 400]
     gr = vlib.tlc_behaviours(ctx, SPEC, "c05_gen_real.cfg", simulate=1500 if T else 300, depth=6, label="C05 gen: store path",
                              cfg_text=cl.cfg(gen=True, MaxOps="4", Resps="<- RespsC05", LazyTTLs="{0, 50}", Names='{"n1"}',
                                              Types='{"t1", "t2"}', Classes='{"c1"}', Flags="{0}"))
